@@ -28,7 +28,7 @@ def run(ctx):
     ctx.floor("C14.1", "character loop in parse_line", len(loops), 1, exact=True)
     header, body = loops[0]
     inserts = [b for b, t in A.call_blocks(f, A.name_endswith("HashSet::<T, S, A>::insert"))]
-    errs = [b for b, e in A.return_exprs(f, r) if A.peel(e)[0] == "agg" and A.peel(e)[2] == "Err"]
+    errs = A.error_exits(f, r)
     ctx.floor("C14.1", "name insertions", len(inserts), 3)
     not_reading = c.edges_where(lambda fc: (fc[0] == "is" and fc[1] in variants and fc[1] != "ReadingName") or (fc[0] == "isnot" and fc[1] == "ReadingName"))
     flush = set(inserts) | set(errs)
@@ -79,7 +79,7 @@ def run(ctx):
     ctx.floor("C14.3", "IpAddr::from_str", len(ipp), 1, exact=True)
     for b, t in ipp:
         e_edges = c.edges_where(lambda fc, b=b: fc[0] == "is" and fc[1] == "Err" and A.peel(fc[2])[0] == "call" and A.peel(fc[2])[3] == (f.key, b))
-        ok = bool(e_edges) and all(any(eb in f.reachable(s) for eb in errs) and header not in f.reachable(s) for a, s in e_edges)
+        ok = bool(e_edges) and all(any(eb in A.reachable_tagged(f, s) for eb in errs) and header not in A.reachable_tagged(f, s) for a, s in e_edges)
         ctx.check(ok, "C14.3", "parse_line:bad-address", "unparseable address => Err", "an unparseable address is not an error", f.loc(b))
     names = A.call_blocks(f, A.name_is(T + "DomainName::from_relative_dotted_string"))
     ctx.floor("C14.3", "name parses", len(names), 3)
@@ -87,7 +87,7 @@ def run(ctx):
         e = r.call_expr(t, b)
         root_ok = bool(Call("DomainName::root_domain")(e[2][0]))
         n_edges = c.edges_where(lambda fc, b=b: fc[0] == "is" and fc[1] == "None" and A.peel(fc[2])[0] == "call" and A.peel(fc[2])[3] == (f.key, b))
-        ok = bool(n_edges) and all(any(eb in f.reachable(s) for eb in errs) and header not in f.reachable(s) for a, s in n_edges)
+        ok = bool(n_edges) and all(any(eb in A.reachable_tagged(f, s) for eb in errs) and header not in A.reachable_tagged(f, s) for a, s in n_edges)
         ctx.check(root_ok and ok, "C14.3", "parse_line:name-parse#%d" % n_, "names parsed relative to the root; failure => Err",
                   "a name is parsed relative to %s / a bad name is not an error" % A.show(e[2][0]), f.loc(b))
     # '#' is a comment wherever it appears
@@ -121,7 +121,7 @@ def run(ctx):
         table = {}
         for b, t in A.call_blocks(g, A.name_endswith("HashMap::<K, V, S, A>::insert")):
             e = gr.call_expr(t, b)
-            dst = _root_name(g, t["args"][0])
+            dst = _dest_family(g, t["args"][0])
             vs = [fc[1] for fc in gc.facts_on_all_paths(b) if fc[0] == "is" and fc[1] in ("A", "AAAA")]
             val = A.peel(e[2][2])
             src = val[1][2] if val[0] == "field" and val[1][0] == "downcast" else None
@@ -129,7 +129,7 @@ def run(ctx):
         ok = table.get("v4") == (["A"], "A", "address") and table.get("v6") == (["AAAA"], "AAAA", "address")
         ctx.check(ok, "C14.2", "%s:family-table" % A.short(g.key), "A -> v4, AAAA -> v6", "zone -> hosts conversion is %s" % table, g.loc())
         if strict:
-            errs_ = [b for b, e in A.return_exprs(g, gr) if A.peel(e)[0] == "agg" and A.peel(e)[2] == "Err"]
+            errs_ = A.error_exits(g, gr)
             others = gc.edges_where(lambda fc: fc[0] == "isnot" and fc[1] == "A")
             ok_o = bool(others) and any(any(eb in g.reachable(s) for eb in errs_) for a, s in others if not any(fc[0] == "is" and fc[1] == "AAAA" for fc in gc.edge_facts(a, s)))
             wc = A.call_blocks(g, A.name_is(Z + "Zone::all_wildcard_records"))
@@ -146,19 +146,21 @@ def run(ctx):
     ctx.check(fams == ["v4", "v6"], "C14.4", "Hosts::serialise:families", "looks the name up in v4 and in v6", "serialiser looks up %s" % fams, hs.loc())
     wr = [t for b, t in hs.calls() if (t.get("callee") or "").endswith("fmt::Write::write_fmt")]
     ctx.check(len(wr) == 2, "C14.4", "Hosts::serialise:lines", "one output line per present family", "%d formatted writes" % len(wr), hs.loc())
-    # the names written are the keys of both maps
+    # the names written are the keys of both maps: every `keys()` of a family must flow into the collected name list,
+    # either directly (`v4.keys().chain(v6.keys()).collect()`) or through inserts into a set that is collected
+    colls = [hsr.call_expr(t, b) for b, t in A.call_blocks(hs, A.name_endswith("Iterator::collect"))]
+    def keys_in(e):
+        return {A.last_field(x[2][0]) for x in A.walk(e) if x[0] == "call" and x[1].endswith("HashMap::<K, V, S, A>::keys")}
     key_fams = set()
-    sets_ = set()
+    for ce in colls:
+        key_fams |= keys_in(ce)
+    collected_sets = {A.show(A.strip_refs(x)) for ce in colls for x in A.walk(ce) if x[0] == "call" and x[1].endswith("HashSet::<T>::new")}
     for b, t in A.call_blocks(hs, A.name_endswith("HashSet::<T, S, A>::insert")):
         e = hsr.call_expr(t, b)
-        sets_.add(A.show(A.strip_refs(e[2][0])))
-        for x in A.walk(e[2][1]):
-            if x[0] == "call" and x[1].endswith("HashMap::<K, V, S, A>::keys"):
-                key_fams.add(A.last_field(x[2][0]))
-    coll = [hsr.call_expr(t, b) for b, t in A.call_blocks(hs, A.name_endswith("Iterator::collect"))]
-    same_set = len(sets_) == 1 and len(coll) == 1 and any(A.show(A.strip_refs(x)) in sets_ for x in A.walk(coll[0]) if x[0] == "call")
-    ctx.check(key_fams == {"v4", "v6"} and same_set, "C14.4", "Hosts::serialise:names", "the names written are the union of the v4 and v6 keys",
-              "names collected from the keys of %s (one set: %s)" % (sorted(key_fams), same_set), hs.loc())
+        if A.show(A.strip_refs(e[2][0])) in collected_sets:
+            key_fams |= keys_in(e[2][1])
+    ctx.check(key_fams == {"v4", "v6"} and bool(colls), "C14.4", "Hosts::serialise:names", "the names written are the union of the v4 and v6 keys",
+              "names collected from the keys of %s" % sorted(map(str, key_fams)), hs.loc())
     hsc = A.Conds(hs, hsr)
     seen_f = set()
     for b, t in hs.calls():
@@ -208,6 +210,34 @@ def run(ctx):
     zt = [(t.get("resolved") or t.get("callee") or "") for f_ in prog.family("ztoh::main") for _, t in f_.calls()]
     ctx.check(any("TryFrom<dns_types::zones::types::Zone>" in n_ or n_.endswith("TryInto<U>>::try_into") or n_.endswith("try_from") for n_ in zt) and any(n_.endswith("Hosts::from_zone_lossy") for n_ in zt),
               "C14.5", "tool:ztoh:modes", "strict (try_from) and lossy conversion both available", "ztoh conversions: %s" % [n_ for n_ in zt if "Hosts" in n_], prog.fn("ztoh::main").loc())
+
+
+def _dest_family(fn, op):
+    """which Hosts map (`v4` / `v6`) a `&mut map` argument refers to: a field of a Hosts value (`hosts.v4`), or a
+    local map that is later moved into that field of the returned `Hosts { v4, v6 }`."""
+    p = A.op_place(op)
+    seen = set()
+    while p is not None and p["l"] not in seen:
+        for el in reversed(p.get("p") or []):
+            if isinstance(el, dict) and el.get("f") in ("v4", "v6") and (el.get("adt") or "").endswith("hosts::types::Hosts"):
+                return el["f"]
+        l = p["l"]
+        seen.add(l)
+        if l in fn.names:
+            # a named local map: find the Hosts aggregate field it is moved into
+            for b, i, st in A.aggregates(fn, H + "Hosts"):
+                rv = st["rv"]
+                for fname, o in zip(rv.get("fields", []), rv.get("ops", [])):
+                    po = A.op_place(o)
+                    if po is not None and po["l"] == l and not po.get("p"):
+                        return fname
+            return fn.names[l]
+        sd = fn.single_def(l)
+        if sd is None or sd[2] != "assign":
+            return None
+        rv = fn.blocks[sd[0]]["stmts"][sd[1]]["rv"]
+        p = rv.get("place") if rv["k"] == "ref" else A.op_place(rv.get("op", {}))
+    return None
 
 
 def _root_name(fn, op):
